@@ -645,7 +645,7 @@ func (c *Ctx) ord4() {
 		// sentinel never reaches the application
 		for i := range p.Events {
 			e := &p.Events[i]
-			if !isCallTo(e, onPub) || e.Depth != 0 {
+			if !isCallTo(e, onPub) || !c.inRegion(rs, e) {
 				continue
 			}
 			er := pathx.ErrResult(e.Result)
